@@ -39,7 +39,9 @@ Two further streams (seeded changes C11-5 / C11-6):
       which modify_factor still takes its row-by-row path for >= 2 rows after repo fix 20cd6bb (fl / (9*16*rows*modfl) > 1, i.e.
       n > ~216 x rows on a dense factor): core released first, then ONE coefficient (its update request builds the full-size
       factor), then a mutually coupled group of 2..6 released together (multi-row cholmod_rowadd, nH2 >= 2; counted from the
-      solver's own "Add <k> rows" lines).  A system is a function of its descriptor (generator seed and sizes), which is what a
+      solver's own "Add <k> rows" lines).  One system in five is the large overshoot variant (everything released at once, a
+      planted group of 2..4 negative components constrained in one call: multi-row cholmod_rowdel), one in five has stages of
+      9..10 and 8..9 coefficients at n = 2200..2400 (the block rule of nnls_normal_block_updown).  A system is a function of its descriptor (generator seed and sizes), which is what a
       replay carries.  Judged in the harness by the KKT residual in long double with the driver's tolerance formula; the same
       long-double judge is run on every vector of kinds 8-10 and must agree with the exact driver there (tie of the judge).
   12  "no improving trial step" corpus bin/props/C11_forced_corpus.txt (57 small integer systems found by
@@ -403,12 +405,12 @@ def model_instances(ctx, base, acc):
 BIG_CONSTRUCTION = ("integer symmetric matrix, strictly diagonally dominant with a_ii = 1 + sum_j |a_ij| (+ ridge on the staged coefficients): dense core with "
                     "couplings -(1..3) and b = 1..16, then stages Q_1, Q_2, ...: every member coupled by -(1..3) to 1..3 members of the previous stage and "
                     "(probability 0.9) to every other member of its own stage, b = 0 or -(1..4)/16; optional scaling D A D by powers of two; indices "
-                    "permuted; all drawn from Rng(2*gseed+1) in harness/nnls_harness.cpp: gen_big. descriptor = gseed n perm_style scaled core_density/10 ridge #stages sizes...")
+                    "permuted; all drawn from Rng(2*gseed+1) in harness/nnls_harness.cpp: gen_big. descriptor = gseed n perm_style scaled core_density/10 ridge #planted_negative #stages sizes...; with a planted negative group (overshoot) the last members of the core get x0 = -(1..7)/8, positive couplings to the rest of the core and b = A x0 on the core")
 
 
 def big_report(ctx, name, solver, tolbits, desc, status, info, ld, vec, what):
     d = desc.split()
-    rep = {"stream": KINDS[11], "descriptor": desc, "n": int(d[1]), "stage_sizes": [int(v) for v in d[7:]], "construction": BIG_CONSTRUCTION,
+    rep = {"stream": KINDS[11], "descriptor": desc, "n": int(d[1]), "planted_negative_group": int(d[6]), "stage_sizes": [int(v) for v in d[8:]], "construction": BIG_CONSTRUCTION,
            "solver": solver, "tolbits": tolbits, "impl_line": (status + " | " + info)[:2000], "judge": ld,
            "replay_cmd": "python3 bin/check.py C11 --replay <this file>",
            "all_entries": "PSV_NNLS_DUMPSYS=<file> nnls_harness bigreplay <out> <kkt_tol> <hang_s> <solver> <descriptor> writes the full system (SYS line, bit patterns)"}
@@ -425,7 +427,7 @@ def big_judge(ctx, consts, lines, acc):
         big["runs"] += 1; acc["evaluations"] += 1; acc["by_solver"][name] = acc["by_solver"].get(name, 0) + 1
         try: big["secs"] += float(kv(f[5]).get("secs", "0"))
         except ValueError: pass
-        where = "a by-construction SPD system (n=%d, %s; stages %s)" % (n, KINDS[11], desc.split()[7:])
+        where = "a by-construction SPD system (n=%d, %s; planted negative group %s, stages %s)" % (n, KINDS[11], desc.split()[6], desc.split()[8:])
         if status != "ok":
             big_report(ctx, "%s:%s" % (name, status.split()[0]), solver, tolbits, desc, status, f[3], ld, "",
                        "%s %s on %s" % (name, "did not terminate within the time limit" if status.startswith("hang") else "aborted: " + status, where))
@@ -515,8 +517,8 @@ def finish(ctx, acc, dist, consts):
         b3 = big["by_solver"].get(SOLVERS[3], {})
         if ctx.violations == 0 and b3.get("runs_with_multirow_add", 0) < max(1, b3.get("runs", 0) // 2):
             ctx.tie_ok = False; ctx.broken.append({"kind": "large dense stream: modify_factor's multi-row add path (nH2 >= 2 on the full-size factor) is no longer reached by nnls_normal_block3 on most systems", "measured": big["by_solver"]})
-        ctx.note("large dense stream: systems=%d n=%s runs=%d; multi-row adds (runs with a call adding >= 2 rows / calls / max rows): %s; worst violation/tolerance %.2e; solver time %.1fs" % (
-            big["systems"], sorted(big["n"]), big["runs"], {k.replace("nnls_normal_", ""): "%d of %d/%d/%d" % (v["runs_with_multirow_add"], v["runs"], v["multirow_add_calls"], v["max_rows_in_one_call"]) for k, v in big["by_solver"].items()},
+        ctx.note("large dense stream: systems=%d n=%s runs=%d; multi-row adds (runs with a call adding >= 2 rows / calls / max rows / runs with a call deleting >= 2 rows): %s; worst violation/tolerance %.2e; solver time %.1fs" % (
+            big["systems"], sorted(big["n"]), big["runs"], {k.replace("nnls_normal_", ""): "%d of %d/%d/%d/%d" % (v["runs_with_multirow_add"], v["runs"], v["multirow_add_calls"], v["max_rows_in_one_call"], v["runs_with_multirow_delete"]) for k, v in big["by_solver"].items()},
             big["worst_need_over_tol"], big["secs"]))
     mi = acc["model_instances"]
     if mi["block_loop_cases"] or mi["add_rows_cases"]:
